@@ -342,9 +342,69 @@ def copy_mid_load(task):
     return out
 
 
+def gc_stress(task):
+    """the garbage collector as a party to the schedule: with collection thresholds of 1 a collection (and with it every finalizer /
+    weak-reference callback of dropped, already-read tree copies caught in reference cycles) can start at almost any allocation of a
+    load -- also inside whatever critical section a load has.  Loads must complete and be right."""
+    import gc
+    import threading
+
+    import ceos_alos2
+
+    from harness import imgrun, oracle, product
+
+    b = product.build_product(level=task["level"], images=(("HH", None, 6, 3), ("HV", None, 6, 3)), seed=task["seed"])
+    url = imgrun.put_on_fs(b, task["fs"], f"c19gc_{task['seed']}")
+    out = {"task": task, "bad": [], "n": 0}
+    old = gc.get_threshold()
+    try:
+        tree = ceos_alos2.open_alos2(url, backend_options=dict(use_cache=False, records_per_chunk=2))
+        done = threading.Event()
+        box = {}
+
+        def work():
+            try:
+                gc.set_threshold(1, 1, 1)
+                for it in range(task["iterations"]):
+                    cp = pickle.loads(pickle.dumps(tree))
+                    im = b.images[it % 2]
+                    rows = [it % 6, (it + 2) % 6]
+                    msg = oracle.pixels_match(cp[f"imagery/{im['group']}/data"].isel(rows=rows).values, im, rows=rows)
+                    cyc = [cp]
+                    cyc.append(cyc)          # only the collector can free this copy
+                    del cp, cyc
+                    msg = msg or oracle.pixels_match(tree[f"imagery/{im['group']}/data"].isel(rows=rows).values, im, rows=rows)
+                    if msg:
+                        box["bad"] = f"iteration {it}: {msg}"
+                        break
+                    box["n"] = it + 1
+            except BaseException as e:  # noqa: B902
+                box["bad"] = f"raised {type(e).__name__}: {str(e)[:120]}"
+            finally:
+                gc.set_threshold(*old)
+                done.set()
+
+        ts = [threading.Thread(target=work, daemon=True) for _ in range(task["threads"])]
+        for t in ts:
+            t.start()
+        for t in ts:
+            t.join(90)
+        out["n"] = box.get("n", 0)
+        if any(t.is_alive() for t in ts):
+            out["bad"].append(("gc-stress:deadlock", f"loads stopped making progress after {box.get('n', 0)} iterations with the collector running at every allocation "
+                               f"(dropped, already-read tree copies in reference cycles): no completion within 90 s"))
+        elif box.get("bad"):
+            out["bad"].append(("gc-stress:values", box["bad"]))
+    finally:
+        gc.set_threshold(*old)
+        if not any("deadlock" in k for k, _ in out["bad"]):
+            imgrun.drop_from_fs(url, task["fs"])
+    return out
+
+
 def run_any(item):
     kind, t = item
-    return {"stall": stall_load, "crowd": crowd_load, "sched": run_schedules, "mid": copy_mid_load}[kind](t)
+    return {"stall": stall_load, "crowd": crowd_load, "sched": run_schedules, "mid": copy_mid_load, "gc": gc_stress}[kind](t)
 
 
 def scripts_from_tlc(cfg, n, depth, seed):
@@ -416,11 +476,16 @@ def body(chk):
     # one pool for everything (no helper threads in this process: forking from a multi-threaded parent can deadlock the children); the
     # long-running stall / crowd tasks go first so that they overlap with the schedules
     mids = [dict(level=("1.5", "1.1")[i % 2], seed=chk.seed + 340 + i) for i in range(2)]
-    mixed = [("stall", t) for t in stalls] + [("crowd", t) for t in crowds] + [("mid", t) for t in mids] + [("sched", t) for t in tasks]
+    gcs = [dict(level=("1.5", "1.1")[i % 2], seed=chk.seed + 350 + i, fs=("local", "vtrace")[i % 2], threads=1 + i % 2, iterations=150 if nq else 1500) for i in range(2)]
+    mixed = [("stall", t) for t in stalls] + [("crowd", t) for t in crowds] + [("gc", t) for t in gcs] + [("mid", t) for t in mids] + [("sched", t) for t in tasks]
     mixed_res = checklib.pmap(run_any, mixed, chk.scratch)
     stall_res = [r for (k, _), r in zip(mixed, mixed_res) if k == "stall"]
     crowd_res = [r for (k, _), r in zip(mixed, mixed_res) if k == "crowd"]
     results = [r for (k, _), r in zip(mixed, mixed_res) if k == "sched"]
+    for res in [r for (k, _), r in zip(mixed, mixed_res) if k == "gc"]:
+        chk.count(res["n"], f"gc-stress:{res['task']['fs']}")
+        for key, msg in res["bad"][:1]:
+            chk.violation(key, f"[{res['task']['fs']}, {res['task']['threads']} thread(s)] {msg}", {"task": res["task"]})
     for res in [r for (k, _), r in zip(mixed, mixed_res) if k == "mid"]:
         chk.count(res["n"], f"copy-mid-load:{res['task']['level']}")
         for key, msg in res["bad"][:2]:
